@@ -600,7 +600,7 @@ fn law_cast(s: &S, target: &DataType) -> Result<Option<bool>, String> {
     }
     if let Err(e) = &scalar_side {
         if e.starts_with("panic") {
-            return Ok(None).map(|x: Option<bool>| x).and_then(|_| Err(format!("PANIC-BOTH:{e}")));
+            return Err(format!("PANIC-BOTH:{e}"));
         }
     }
     Ok(scalar_side.ok().map(|v| !v.is_null()))
@@ -685,7 +685,9 @@ fn explore(ctx: &Ctx) {
                 if nontrivial {
                     ctx.nontrivial(&c);
                     if sample_ok && ctx.want_sample() {
-                        ctx.sample(serde_json::to_value(&c).unwrap());
+                        let vals: Vec<String> =
+                            c.scalars.iter().map(|n| u.get(pos(n)).map(|s| format!("{:?}", s.v)).unwrap_or_default()).collect();
+                        ctx.sample(json!({"case": c, "values": vals}));
                     }
                 }
             }
@@ -710,7 +712,7 @@ fn explore(ctx: &Ctx) {
     // 1. roundtrip
     u.par_iter().for_each(|s| {
         let c = Case { law: "roundtrip".into(), scalars: vec![s.name.clone()], target: None };
-        report(c, guarded(&|| law_roundtrip(s)), s.name.contains("/v3/"));
+        report(c, guarded(&|| law_roundtrip(s)), s.name == "Struct<F64,List<I32>>/v2/L0.G3.S3" || s.name == "TimestampNanosecond[+02:00]/max");
         ctx.count("roundtrip_scalars", 1);
     });
     // 2. iter_to_array
@@ -723,7 +725,7 @@ fn explore(ctx: &Ctx) {
                 }
                 let items = [&u[a], &u[b]];
                 let c = Case { law: "iter".into(), scalars: items.iter().map(|s| s.name.clone()).collect(), target: None };
-                report(c, guarded(&|| law_iter(&items)), false);
+                report(c, guarded(&|| law_iter(&items)), u[a].name == "Dictionary<I8>/utf8-a" && u[b].name == "Dictionary<I8>/utf8-null");
                 ctx.count("iter_pairs", 1);
                 if idx.len() <= triple_cap {
                     for &d in idx.iter() {
@@ -759,7 +761,7 @@ fn explore(ctx: &Ctx) {
             ctx.count("strictly_ordered_pairs", *n);
         }
         ctx.count("ordered_groups", 1);
-        report(c, r.map(|n| n > 0), items.len() <= 5);
+        report(c, r.map(|n| n > 0), items[0].name.starts_with("Float16") || items[0].name.starts_with("IntervalDayTime"));
     });
     // 5. cast (nested scalars only in their plain physical layout: Arrow's cast kernel also
     // casts child values that no row references, which is not a property of the scalar)
@@ -783,7 +785,7 @@ fn explore(ctx: &Ctx) {
                 Ok(None) => ctx.count("casts_both_fail", 1),
                 Err(_) => {}
             }
-            report(c, r.map(|x| x == Some(true)), false);
+            report(c, r.map(|x| x == Some(true)), s.name == "Utf8/\"2020-01-01\"" && matches!(t, DataType::Timestamp(TimeUnit::Nanosecond, Some(_))));
         }
     });
     // one violation per failure class
